@@ -643,6 +643,64 @@ func runCrashCase(r *rep.Reporter, cc crashCase) {
 			return
 		}
 	}
+	// phase 2b (file backends, every second hook case): a second upload of the key that was in
+	// flight, killed before its object is moved into place. Whatever the first recovery left
+	// pending on disk, the key is afterwards what it was after that recovery, or wholly the new
+	// upload - never a body with another upload's headers.
+	if cc.mode == "hook" && cc.kind != "bolt" && inflightKey != "" && (cc.nth+cc.seed)%2 == 0 {
+		k := inflightKey
+		g0, err := cl.do("GET", p2.url(bucket, k), nil, nil, 0)
+		if err == nil {
+			var cur objState
+			switch {
+			case g0.Status == 404:
+				cur = objState{}
+			case acked[k].present && bytes.Equal(g0.Body, acked[k].body):
+				cur = acked[k]
+			default:
+				cur = inflightNew
+			}
+			p2.kill()
+			point2 := []string{"fs.put.before-rename", "fs.put.after-mkdir", "fs.put.before-meta"}[(cc.nth+len(k))%3]
+			p2b, err := startServer(cc.kind, dir, []string{"VERIF_CRASH=" + point2 + ":1"})
+			if err != nil {
+				fail("store-does-not-open", "second session does not start: "+err.Error(), map[string]interface{}{"trace": trace})
+				return
+			}
+			third := objState{present: true, body: []byte("third upload of " + k), ctype: "text/x-third", step: "third", latin: "troisi\xe8me"}
+			trace = append(trace, fmt.Sprintf("restart; PUT %s (third upload), server kills itself at %s", k, point2))
+			_, perr := cl.do("PUT", p2b.url(bucket, k), http.Header{"Content-Type": {third.ctype}, "X-Amz-Meta-Step": {third.step}, "X-Amz-Meta-Latin": {third.latin}}, bytes.NewReader(third.body), int64(len(third.body)))
+			if perr == nil || p2b.alive() {
+				// the point was not reached (or the upload was answered): nothing in flight
+				p2b.kill()
+			} else {
+				r.Count("second_kills_on_the_in_flight_key", 1)
+			}
+			p2c, err := startServer(cc.kind, dir, nil)
+			if err != nil {
+				fail("store-does-not-open", "after the second kill the server does not start: "+err.Error(), map[string]interface{}{"trace": trace})
+				return
+			}
+			p2 = p2c
+			defer p2c.kill()
+			g, err := cl.do("GET", p2.url(bucket, k), nil, nil, 0)
+			same := func(st objState) bool {
+				if !st.present {
+					return g.Status == 404
+				}
+				return g.Status == 200 && bytes.Equal(g.Body, st.body) && g.ETag() == drv.QuotedMD5(st.body) && g.Header.Get("Content-Type") == st.ctype &&
+					g.Header.Get("X-Amz-Meta-Step") == st.step && (st.latin == "" || g.Header.Get("X-Amz-Meta-Latin") == st.latin)
+			}
+			if err != nil || (!same(cur) && !same(third)) {
+				anom := "second-in-flight-write-partially-applied"
+				if err == nil && g.Status == 200 && (bytes.Equal(g.Body, cur.body) || bytes.Equal(g.Body, third.body)) {
+					anom = "second-in-flight-write-mixes-body-and-metadata"
+				}
+				fail(anom, fmt.Sprintf("key %s was %s after the first recovery; a further upload of it (%s) was killed at %s; after that restart GET gives %v, %d bytes md5 %s, type %q step %q latin %q (%v)", k, cur, third, point2, g, len(g.Body), drv.MD5Hex(g.Body), hdrOf(g, "Content-Type"), hdrOf(g, "X-Amz-Meta-Step"), hdrOf(g, "X-Amz-Meta-Latin"), err), wit())
+				return
+			}
+		}
+	}
 	// phase 3: life goes on after the recovery. Every key (the one that was in flight included) is
 	// overwritten with a small object whose metadata is shorter than anything written before;
 	// the new writes are acknowledged writes like any other: readable at once and after one more kill.
